@@ -37,11 +37,12 @@ CLAIMED = {
          "guard domination at accepting exits; writer/reader shape agreement between generator and validator"),
  'C09': ("Narrow structural claim: for every TMCG_Bigint operation that branches on the back end, the primitives applied on the secure (libgcrypt) path correspond, through a fixed table, to those on the plain (GMP) path with the object in the same operand position; the two back-end conversions use the same hexadecimal format; the table-based powers share exponent-length and sign handling. Four of the six clauses of C09 (numerical agreement of the power variants, square roots, prime generators, interpolation) concern computed values and are NOT decided.", "§3 C09",
          "sibling agreement between the two back-end branches of one interface (primitive correspondence table, operand roles)"),
+ 'C16': ("Partial: decides only the last sentence of C16 -- the library's own signature verifiers (threshold Schnorr: GennaroJareckiKrawczykRabinNTS::Verify, DSA: CanettiGennaroJareckiKrawczykRabinDSS::Verify) accept only what the verification equation and the range conditions accept: accepting exits are guarded by a frozen inventory (equation abstracted to the inputs it relates, range tests, invertibility) and every signature component is either compared as a whole with a recomputed reduced value or carries the range facts 0 <= x < q (no non-canonical representative x + kq is accepted). That a completed multi-party signing run yields a valid signature, and that all honest parties obtain the same one, are relations over executions and are NOT decided.", "§3 C16 / §9",
+         "guard domination by must-fact dataflow against a frozen check inventory; canonical-representative rule over the accepting facts"),
 }
 NA = {
  'C01': "algebraic identity over runtime group elements for all masking chains; no clause visible in code shape beyond what C03/C05/C08/C12 claim",
  'C15': "relation between final states of n concurrent runs under fault sequences; a property of executions, not of code shape",
- 'C16': "numerical validity of a multi-party signing run under an independent implementation; only a minor structural clause exists",
 }
 PENDING = "rule module not built yet in this revision (planned, see DESIGN.md §3)"
 ALL = ['C%02d' % i for i in range(1, 21)]
